@@ -68,6 +68,20 @@ func (p *Prog) ownedBy(fn *ssa.Function, allowed func(name string) bool) (string
 			return "", true // mutual recursion inside the helper cluster: decided by the other callers
 		}
 		seen[top] = true
+		// a method used as a value (s.c.Access(s, s.enqueueAccessResult)): owned by where the value is made
+		if top.Synthetic != "" && strings.HasSuffix(top.Name(), "$bound") {
+			owner := ""
+			for _, mc := range p.boundMakers[top] {
+				o, ok := rec(mc.Parent(), depth+1)
+				if !ok {
+					return "", false
+				}
+				if o != "" {
+					owner = o
+				}
+			}
+			return owner, owner != ""
+		}
 		if top.Object() == nil || top.Object().Exported() {
 			return "", false
 		}
@@ -83,6 +97,12 @@ func (p *Prog) ownedBy(fn *ssa.Function, allowed func(name string) bool) (string
 			}
 			if TopLevel(e.Caller.Func) == top {
 				continue // self recursion does not change who owns the code
+			}
+			// a promoted-method wrapper nobody calls (made for the method set of the embedding type) is no caller
+			if cf := e.Caller.Func; cf.Synthetic != "" && !strings.HasSuffix(cf.Name(), "$bound") {
+				if cn := p.CG.Nodes[cf]; cn == nil || len(cn.In) == 0 {
+					continue
+				}
 			}
 			cnt++
 			o, ok := rec(e.Caller.Func, depth+1)
@@ -108,6 +128,10 @@ func (p *Prog) ownedBy(fn *ssa.Function, allowed func(name string) bool) (string
 type whoEntry struct {
 	Field   string
 	Writers map[string]string
+	// Shape lists value shapes a store may have in ANY function: "init" (field of an object allocated in
+	// the same function: initialisation, not mutation), "from:<pkg.Type.Method>" (the value returned by
+	// that call, e.g. the mq subscription handle). Set only where the shape, not the writer, carries the rule.
+	Shape []string
 }
 
 func ruleWho(entries []whoEntry) func(c *Ctx) {
@@ -118,6 +142,12 @@ func ruleWho(entries []whoEntry) func(c *Ctx) {
 				c.undecided(e.Field, "anchor", "-", "field not found")
 				continue
 			}
+			// the table names functions as they were; a renamed writer keeps its entry
+			resolved := map[string]string{}
+			for nm, why := range e.Writers {
+				resolved[c.P.FnNameOf(nm)] = why
+			}
+			e.Writers = resolved
 			ws := c.P.writersOf(f)
 			var names []string
 			for n := range ws {
@@ -131,6 +161,18 @@ func ruleWho(entries []whoEntry) func(c *Ctx) {
 				reason := e.Writers[owner]
 				if !ok {
 					owner = n
+					all := len(e.Shape) > 0
+					sh := ""
+					for _, st := range ws[n] {
+						if s1 := c.P.storeShape(st, e.Shape); s1 != "" {
+							sh = s1
+						} else {
+							all = false
+						}
+					}
+					if all {
+						ok, reason = true, "not a listed writer, but every store has a listed shape: "+sh
+					}
 				}
 				if ok {
 					if owner != n {
@@ -170,7 +212,7 @@ func ruleStateTable(field string, names map[int64]string, table []stateWrite) fu
 		}
 		allowed := map[string]string{}
 		for _, t := range table {
-			allowed[fmt.Sprintf("%s=%d", t.Fn, t.Value)] = t.Why
+			allowed[fmt.Sprintf("%s=%d", c.P.FnNameOf(t.Fn), t.Value)] = t.Why
 		}
 		for _, st := range c.P.stores[f] {
 			c.inst(1)
@@ -229,4 +271,72 @@ func (p *Prog) ownedByOutside(fn *ssa.Function, cluster []*ssa.Function, allowed
 		owner = o
 	}
 	return owner, cnt > 0 || len(cluster) > 1
+}
+
+// storeShape returns the first listed shape the store has, or "".
+func (p *Prog) storeShape(st *ssa.Store, shapes []string) string {
+	for _, sh := range shapes {
+		switch {
+		case sh == "init":
+			if fa, ok := st.Addr.(*ssa.FieldAddr); ok {
+				if _, fresh := fa.X.(*ssa.Alloc); fresh {
+					return "initialisation of an object allocated here"
+				}
+			}
+		case strings.HasPrefix(sh, "from:"):
+			m := p.lookupFunc(sh[5:])
+			v := st.Val
+			if e, ok := v.(*ssa.Extract); ok {
+				v = e.Tuple
+			}
+			if call, ok := v.(*ssa.Call); ok && m != nil && calleeFunc(&call.Call) == m {
+				return "value returned by " + sh[5:]
+			}
+		}
+	}
+	return ""
+}
+
+// WHO/event-immutable (C10, C01): one ResourceEvent is handed to every
+// subscriber of the resource, on as many connection workers. After the cache
+// has stamped and applied it, it is read-only: a field of ResourceEvent —
+// any field, also one added later — is stored only while the event is being
+// built (a freshly allocated event) or by the cache's event handlers before
+// the fan-out. A subscriber-side store (a per-subscriber value cached in the
+// shared event) leaks one connection's data to the others.
+func ruleEventImmutable(c *Ctx) {
+	p := c.P
+	n := p.Named("rescache.ResourceEvent")
+	if n == nil {
+		c.undecided("rescache.ResourceEvent", "anchor", "-", "type not found")
+		return
+	}
+	st, ok := n.Underlying().(*types.Struct)
+	if !ok {
+		c.undecided("rescache.ResourceEvent", "anchor", "-", "not a struct")
+		return
+	}
+	allowed := map[string]bool{}
+	for _, nm := range []string{"(*rescache.ResourceSubscription).handleEvent", "(*rescache.ResourceSubscription).handleEventAdd", "(*rescache.ResourceSubscription).handleEventRemove", "(*rescache.ResourceSubscription).handleEventChange"} {
+		allowed[p.FnNameOf(nm)] = true
+	}
+	for k := 0; k < st.NumFields(); k++ {
+		f := st.Field(k)
+		for _, s := range p.stores[f] {
+			c.inst(1)
+			fn := s.Parent()
+			what := "field " + f.Name() + " of the shared event written only while it is built or by the cache's handlers"
+			if fa, ok := s.Addr.(*ssa.FieldAddr); ok {
+				if _, fresh := fa.X.(*ssa.Alloc); fresh {
+					c.ok(fnName(fn), what, p.InstrPos(s), "initialisation of an event allocated here")
+					continue
+				}
+			}
+			if o, ok := p.ownedBy(fn, func(nm string) bool { return allowed[nm] }); ok {
+				c.ok(fnName(fn), what, p.InstrPos(s), "cache handler "+o+", before the fan-out")
+				continue
+			}
+			c.viol(fnName(fn), what, p.InstrPos(s), "a ResourceEvent is shared by all subscribers of the resource (other connections, other goroutines): storing into it after the fan-out makes one subscriber's value visible to the others")
+		}
+	}
 }
